@@ -96,6 +96,18 @@ Proof.
   apply (denotational b_dollar dollar_not_lbrace dollar_not_rbrace f l _ Exhausted Hw Hc).
 Qed.
 
+(* in particular: if the resolver never returns a text containing a brace (configured values and
+   defaults free of braces - the design note's "values free of dollar, left and right brace" is a
+   special case), the statement holds for every well-formed tag *)
+Theorem c16_denotational_values : forall f l b fuel,
+  (forall x r, f x = Ok r -> brace_free r = true) ->
+  forallb wf l = true -> (ph_count_all l <= b)%nat ->
+  replace_all_content b_dollar f (Some b) fuel (render_all b_dollar l) = of_res (subst_all f l).
+Proof.
+  intros f l b fuel Hf Hw Hb. apply c16_denotational; [exact Hw| |exact Hb].
+  apply forallb_forall. intros t _. apply (clean_all f Hf).
+Qed.
+
 (* the same for the unrepaired loop, given enough fuel to watch it finish *)
 Theorem c16_denotational_unrepaired : forall f l fuel,
   forallb wf l = true -> forallb (clean f) l = true -> (ph_count_all l <= fuel)%nat ->
